@@ -33,7 +33,36 @@ CLASSES = {
     "IndexExpr": ("EIndex", [("base", "E"), ("index", "E")]),
     "SliceExpr": ("ESlice", [("begin_index", "OE"), ("end_index", "OE"), ("stride", "OE")]),
     "IntExpr": ("EInt", [("value", "Z")]),
+    "StrExpr": ("EStr", [("value", "CPS")]),
+    "FloatExpr": ("EFloat", [("value", "FR")]),
 }
+
+# helpers defined outside the check module that a check may call: name -> (defining file, the source their
+# transliteration in Lib/PyMatch.v was read from, normalised by ast.unparse).  A different source fails closed.
+PINNED = {
+    "normalize_os_path": ("refurb/checks/common.py",
+                          "def normalize_os_path(module: str | None) -> str:\n    if not module:\n        return ''\n    segments = module.split('.')\n"
+                          "    if segments[0].startswith(('genericpath', 'ntpath', 'posixpath')):\n        return '.'.join(['os', 'path'] + segments[1:])\n    return module"),
+    "is_pathlike": ("refurb/checks/pathlib/util.py",
+                    "def is_pathlike(expr: Expression) -> bool:\n    return is_same_type(get_mypy_type(expr), 'pathlib.Path')"),
+}
+
+
+# the checks translated first: their proofs (Props/C01/C01Match.v) destruct Coq literal patterns
+LEGACY = (110, 114, 136, 149, 171)
+
+
+def pinned_ok(repo: Path, name: str) -> None:
+    rel, want = PINNED[name]
+    tree = ast.parse((repo / rel).read_text("utf8"))
+    fn = next((n for n in tree.body if isinstance(n, ast.FunctionDef) and n.name == name), None)
+    if fn is None:
+        raise TranslateError(f"matchers: {rel}: {name} not found")
+    if fn.body and isinstance(fn.body[0], ast.Expr) and isinstance(fn.body[0].value, ast.Constant) and isinstance(fn.body[0].value.value, str):
+        fn.body = fn.body[1:]
+    got = ast.unparse(fn)
+    if got != want:
+        raise TranslateError(f"matchers: {rel}: {name} is no longer the function Lib/PyMatch.v transliterates:\n{got}")
 
 
 def fail(n, msg):
@@ -55,6 +84,12 @@ class Tr:
         self.helpers: dict[str, tuple[str, str, str]] = {}      # name -> (param, table, default param or literal)
         self.funcs: dict[str, ast.FunctionDef] = {n.name: n for n in tree.body if isinstance(n, ast.FunctionDef) and n.name != "check"}
         self.uses_types = False
+        self.type_names: set[str] = set()
+        self.refs: set[str] = set()
+        self.repo: Path | None = None
+        self.legacy = False          # literal patterns as Coq literal patterns (the first translated checks' proofs destruct them) instead of tests
+        self.side: list[str] = []    # tests that the literals of the pattern being translated stand for
+        self.imported = {a.asname or a.name: (n.module or "") for n in tree.body if isinstance(n, ast.ImportFrom) for a in n.names}
         for n in tree.body:
             if isinstance(n, ast.Assign) and len(n.targets) == 1 and isinstance(n.targets[0], ast.Name) and isinstance(n.value, ast.Dict):
                 if all(isinstance(k, ast.Constant) and isinstance(k.value, str) and isinstance(v, ast.Constant) and isinstance(v.value, str) and v.value
@@ -86,21 +121,46 @@ class Tr:
             inner = self.pat(p.pattern, ty, env)
             env[p.name] = (p.name, ty)
             return f"({inner} as {p.name})"
+        if not self.legacy and ty in ("S", "Z", "FR"):
+            lits = p.patterns if isinstance(p, ast.MatchOr) else [p]
+            if all(isinstance(q, ast.MatchValue) and isinstance(q.value, ast.Constant) for q in lits):
+                # a literal (or several): a variable plus a test, so that theorems case on the test and not on the bits of the literal
+                v = self.var("lit")
+                tests = []
+                for q in lits:
+                    c = q.value.value
+                    if ty == "S" and isinstance(c, str):
+                        tests.append(f"String.eqb {v} {cstr(c)}")
+                    elif ty == "Z" and isinstance(c, int) and not isinstance(c, bool):
+                        tests.append(f"Z.eqb {v} ({c})%Z")
+                    elif ty == "FR" and isinstance(c, float):
+                        tests.append(f"String.eqb {v} {cstr(str(c))}")
+                    else:
+                        fail(p, f"literal pattern of type {type(c).__name__} against {ty}")
+                self.side.append("(" + " || ".join(tests) + ")")
+                return v
         if isinstance(p, ast.MatchValue) and isinstance(p.value, ast.Constant):
             v = p.value.value
             if ty == "S" and isinstance(v, str):
                 return cstr(v)
-            if ty == "Z" and isinstance(v, int):
+            if ty == "Z" and isinstance(v, int) and not isinstance(v, bool):
                 return f"({v})%Z"
+            if ty == "CPS" and isinstance(v, str):
+                return "[" + "; ".join(f"{ord(c)}%N" for c in v) + "]"
+            if ty == "FR" and isinstance(v, float):
+                return cstr(str(v))
             fail(p, f"literal pattern of type {type(v).__name__} against {ty}")
         if isinstance(p, ast.MatchSingleton) and p.value is None and ty == "OE":
             return "None"
         if isinstance(p, ast.MatchOr):
             envs, alts = [], []
+            n_side = len(self.side)
             for q in p.patterns:
                 e2: dict = {}
                 alts.append(self.pat(q, ty, e2))
                 envs.append(e2)
+            if len(self.side) != n_side:
+                fail(p, "literal inside an alternative of an or-pattern")
             if any(set(e2) != set(envs[0]) for e2 in envs):
                 fail(p, "alternatives bind different names")
             env.update(envs[0])
@@ -117,6 +177,15 @@ class Tr:
             fail(p, f"sequence pattern against {ty}")
         if isinstance(p, ast.MatchClass):
             cname = ast.unparse(p.cls)
+            if cname == "RefExpr" and not p.patterns and ty == "E":
+                # RefExpr is the common base of NameExpr and MemberExpr (mypy.nodes): either of the two, same fields
+                given = dict(zip(p.kwd_attrs, p.kwd_patterns))
+                if set(given) - {"name", "fullname"}:
+                    fail(p, "RefExpr field")
+                if self.legacy:
+                    fail(p, "RefExpr in a check translated with literal patterns")
+                flds = " ".join(self.pat(given[f], "S", env) if f in given else "_" for f in ("name", "fullname"))
+                return f"((EName {flds}) | (EMember _ {flds}))"
             if cname not in CLASSES or p.patterns:
                 fail(p, "class pattern of an untranslated class")
             if ty == "OE":
@@ -144,6 +213,8 @@ class Tr:
             return t
         if ty == "S":
             return f"[PLit {t}]"
+        if ty == "CONST":
+            return f"[PLit {cstr(str(ast.literal_eval(t)))}]"         # f"{v}" of an int / float / str is str(v)
         fail(t, f"a value of type {ty} inside an f-string (stringify it first)")
 
     def expr(self, e, env: dict) -> tuple[str, str]:
@@ -151,6 +222,10 @@ class Tr:
             if e.id in env:
                 return env[e.id]
             fail(e, "unknown name")
+        if isinstance(e, ast.BoolOp) and isinstance(e.op, ast.Or) and len(e.values) == 2 and isinstance(e.values[1], ast.Constant) and e.values[1].value == "":
+            t, ty = self.expr(e.values[0], env)
+            if ty == "S":
+                return t, "S"                                          # `fullname or ""`: None is "" in the model
         if isinstance(e, ast.Constant):
             if isinstance(e.value, bool):
                 return ("true" if e.value else "false"), "B"
@@ -164,7 +239,9 @@ class Tr:
             if key in env:
                 return env[key]
             if e.attr == "name" and e.value.id in env and env[e.value.id][1] == "E":
-                return f"(name_of {env[e.value.id][0]})", "S"          # NameExpr.name (the caller has narrowed the node to a NameExpr)
+                return f"(name_of {env[e.value.id][0]})", "S"          # RefExpr.name (the caller has narrowed the node to a NameExpr / MemberExpr)
+            if e.attr == "fullname" and e.value.id in env and env[e.value.id][1] == "E":
+                return f"(ref_fullname {env[e.value.id][0]})", "S"     # RefExpr.fullname, "" for None
             fail(e, "unknown attribute")
         if isinstance(e, ast.JoinedStr):
             parts = []
@@ -194,6 +271,25 @@ class Tr:
         if isinstance(e, ast.Call):
             fn = ast.unparse(e.func)
             args = e.args
+            if fn in ("str", "int") and len(args) == 1 and not e.keywords:
+                t, ty = self.expr(args[0], env)
+                if ty != "CONST":
+                    fail(e, f"{fn}() of something that is not a matched literal")
+                return repr({"str": str, "int": int}[fn](ast.literal_eval(t))), "CONST"
+            if fn in PINNED and fn not in self.funcs and len(args) == 1 and not e.keywords:
+                if self.imported.get(fn) != PINNED[fn][0][:-3].replace("/", ".") or self.repo is None:
+                    fail(e, f"{fn} is not the helper of {PINNED[fn][0]}")
+                pinned_ok(self.repo, fn)
+                t, ty = self.expr(args[0], env)
+                if fn == "normalize_os_path":
+                    if ty != "S":
+                        fail(e, "normalize_os_path of a non-string")
+                    return f"(normalize_os_path {t})", "S"
+                if ty != "E":
+                    fail(e, "is_pathlike of a non-expression")
+                self.uses_types = True
+                self.type_names.add("pathlib.Path")
+                return f"(type_is {t} {cstr('pathlib.Path')})", "B"
             if fn == "stringify" and len(args) == 1 and not e.keywords:
                 t, ty = self.expr(args[0], env)
                 if ty != "E":
@@ -225,6 +321,7 @@ class Tr:
                 if ty != "E":
                     fail(e, "type of a non-expression")
                 self.uses_types = True
+                self.type_names |= {a.id for a in args[1:]}
                 return "(" + " || ".join(f"type_is {t} {cstr(a.id)}" for a in args[1:]) + ")", "B"
             if fn in self.funcs and fn not in self.helpers and not e.keywords:
                 return self.inline(self.funcs[fn], [self.expr(a, env) for a in args], e)
@@ -321,6 +418,9 @@ class Tr:
             t, ty = self.expr(st.value, env)
             v = self.var(st.targets[0].id)
             env2 = dict(env)
+            if ty == "CONST":
+                env2[st.targets[0].id] = (t, ty)                       # a value known at translation time: no binder
+                return self.block(tail, env2, rest)
             env2[st.targets[0].id] = (v, ty)
             return f"(let {v} := {t} in {self.block(tail, env2, rest)})"
         if isinstance(st, (ast.If, ast.Match)):
@@ -333,7 +433,7 @@ class Tr:
                 subj, ty = self.expr(st.subject, env)
                 if ty != "E":
                     fail(st, "match on a non-expression")
-                return self.cases(subj, st.cases, env, rest, tail)
+                return self.cases(subj, st.cases, env, rest, tail, st.subject.id if isinstance(st.subject, ast.Name) else None)
             after = self.block(tail, env, rest)
             if isinstance(st, ast.If):
                 t = self.if_(st.test, st.body, st.orelse, env, "[]")
@@ -341,12 +441,19 @@ class Tr:
                 subj, ty = self.expr(st.subject, env)
                 if ty != "E":
                     fail(st, "match on a non-expression")
-                t = self.cases(subj, st.cases, env, "[]", [])
+                t = self.cases(subj, st.cases, env, "[]", [], st.subject.id if isinstance(st.subject, ast.Name) else None)
             return t if after == "[]" else f"({t} ++ {after})"
         fail(st, "unrecognised statement")
 
     def if_(self, test, body, orelse, env: dict, after: str) -> str:
         """`if test: body else: orelse`, then `after`; walrus conjuncts bind for the body."""
+        if isinstance(test, ast.UnaryOp) and isinstance(test.op, ast.Not) and isinstance(test.operand, ast.Name) and env.get(test.operand.id, ("", ""))[1] == "OS":
+            # `if not looked_up:` -- the tables hold non-empty strings only (checked when they are read), so falsy is None
+            t, _ = env[test.operand.id]
+            v = self.var(test.operand.id)
+            env2 = dict(env)
+            env2[test.operand.id] = (v, "S")
+            return f"(match {t} with Some {v} => {self.block(orelse, env2, after)} | None => {self.block(body, env, after)} end)"
         conj = test.values if isinstance(test, ast.BoolOp) and isinstance(test.op, ast.And) else [test]
         plain, binds = [], []
         for c in conj:
@@ -374,14 +481,51 @@ class Tr:
             return f"(if ({c}) then {inner} else {else_t})"
         return inner
 
-    def cases(self, subj: str, cases: list, env: dict, after: str, tail: list) -> str:
+    @staticmethod
+    def literal_alternatives(pattern) -> list | None:
+        """`A(value=1 | 2) | B(value=3.0)` -> [A(value=1), A(value=2), B(value=3.0)] when every alternative is a class
+        pattern that fixes `value` to literals (tried in this order, as Python tries them); None otherwise."""
+        alts = pattern.patterns if isinstance(pattern, ast.MatchOr) else [pattern]
+        out = []
+        for a in alts:
+            if not (isinstance(a, ast.MatchClass) and not a.patterns and a.kwd_attrs == ["value"]):
+                return None
+            vs = a.kwd_patterns[0].patterns if isinstance(a.kwd_patterns[0], ast.MatchOr) else [a.kwd_patterns[0]]
+            if not all(isinstance(v, ast.MatchValue) and isinstance(v.value, ast.Constant) and type(v.value.value) in (int, float, str) for v in vs):
+                return None
+            out += [ast.MatchClass(cls=a.cls, patterns=[], kwd_attrs=["value"], kwd_patterns=[v]) for v in vs]
+        return out
+
+    def cases(self, subj: str, cases: list, env: dict, after: str, tail: list, subj_name: str | None = None) -> str:
         """tail: statements that follow the match statement (run after whichever case body was taken, or after none)"""
         if not cases:
             return self.block(tail, env, after)
         c, more = cases[0], cases[1:]
-        rest = self.cases(subj, more, env, after, tail)
+        if isinstance(c.pattern, ast.MatchAs) and c.pattern.pattern is None and c.guard is None:
+            # irrefutable: the remaining cases (and falling out of the match) are unreachable
+            env2 = dict(env)
+            if c.pattern.name:
+                env2[c.pattern.name] = (subj, "E")
+            return self.block(c.body + tail, env2, after)
+        lits = self.literal_alternatives(c.pattern) if subj_name and c.guard is None else None
+        if lits and any(isinstance(x, ast.Attribute) and x.attr == "value" and isinstance(x.value, ast.Name) and x.value.id == subj_name
+                        for st in c.body for x in ast.walk(st)):
+            # the body reads `<subject>.value`: one case per literal, in each of which that value is known
+            rest = self.cases(subj, more, env, after, tail, subj_name)
+            for alt in reversed(lits):
+                env2 = dict(env)
+                env2[f"{subj_name}.value"] = (repr(alt.kwd_patterns[0].value.value), "CONST")
+                self.side = []
+                p = self.pat(alt, "E", {})
+                conds, self.side = self.side, []
+                body = self.block(c.body + tail, env2, after)
+                rest = self.tested(subj, p, conds, body, rest)
+            return rest
+        rest = self.cases(subj, more, env, after, tail, subj_name)
         env2 = dict(env)
+        self.side = []
         p = self.pat(c.pattern, "E", env2)
+        conds, self.side = self.side, []
         # `A() | B() as v` then `v.items`: bind the common field through an or-pattern
         for q in ast.walk(c.pattern):
             name = self.class_fields(q)
@@ -393,7 +537,17 @@ class Tr:
             body = self.guarded(c.guard, c.body + tail, env2, after, rest)      # a failed guard falls through to the remaining cases
         else:
             body = self.block(c.body + tail, env2, after)
-        return f"(match {subj} with {p} => {body} | _ => {rest} end)"
+        return self.tested(subj, p, conds, body, rest)
+
+    def tested(self, subj: str, p: str, conds: list, body: str, rest: str) -> str:
+        """`match subj with p => (if conds then body else rest) | _ => rest end`, with rest written once"""
+        if not conds:
+            return f"(match {subj} with {p} => {body} | _ => {rest} end)"
+        if rest == "[]":
+            return f"(match {subj} with {p} => (if {' && '.join(conds)} then {body} else []) | _ => [] end)"
+        r = self.var("taken")
+        return (f"(match (match {subj} with {p} => (if {' && '.join(conds)} then Some ({body}) else None) | _ => None end) "
+                f"with Some {r} => {r} | None => {rest} end)")
 
     def guarded(self, guard, body, env: dict, after: str, rest: str) -> str:
         conj = guard.values if isinstance(guard, ast.BoolOp) and isinstance(guard.op, ast.And) else [guard]
@@ -402,7 +556,7 @@ class Tr:
         return f"(if {self.cond(guard, env)} then {self.block(body, env, after)} else {rest})"
 
 
-def translate_check(path: Path, code: int, default_msg: str | None) -> str:
+def translate_check(path: Path, code: int, default_msg: str | None, repo: Path | None = None, info: dict | None = None) -> str:
     """`Definition check_<code> (node : expr) : list template`"""
     tree = ast.parse(path.read_text("utf8"))
     fn = next((n for n in tree.body if isinstance(n, ast.FunctionDef) and n.name == "check"), None)
@@ -410,6 +564,8 @@ def translate_check(path: Path, code: int, default_msg: str | None) -> str:
         raise TranslateError(f"matchers: {path.name}: check(node, errors) not found")
     ann = ast.unparse(fn.args.args[0].annotation)
     tr = Tr(tree, default_msg)
+    tr.repo = repo
+    tr.legacy = code in LEGACY
     env: dict = {"node": ("node", "E")}
     if ann in CLASSES:
         ctor, fields = CLASSES[ann]
@@ -420,6 +576,8 @@ def translate_check(path: Path, code: int, default_msg: str | None) -> str:
         term = f"match node with {ctor} {' '.join(vs)} => {body} | _ => [] end"
     else:
         raise TranslateError(f"matchers: {path.name}: node annotated {ann}")
+    if info is not None:
+        info["type_names"] = sorted(tr.type_names)
     return f"Definition check_{code} (node : expr) : list template :=\n  {term}.\n"
 
 
